@@ -24,6 +24,8 @@ COLLISION_FREE = ["m0", "m1", "m2", "m3", "m4", "m5", "m6", "m7", "m8", "m9"]
 ADVERSARIAL = ["a", "ab", "a_b", "aa", "b", "ba", "a1", "_a", "A"]
 # large / unusual: 30 numbered names (m2 < m10 numerically, not lexicographically), non-ASCII identifiers, a very long name
 LARGE_POOL = ["m%d" % i for i in range(30)] + ["pkg_\u00e9", "\u00df_mod", "\u03b4elta", "long_" + "x" * 60, "Z9", "_"]
+# non-ASCII names, some of them not stable under Unicode normalisation (micro sign, fi ligature, combining accent, full-width letter)
+UNICODE_POOL = ["\u00b5_core", "\ufb01le", "e\u0301", "\uff41b", "\u00e9", "\u00aa", "x", "\u03bc_core"]
 
 
 # --------------------------------------------------------------------------
@@ -44,6 +46,11 @@ def make_arch_direct(nodes, edges, limit=None):
     return EAG(NXG(list(nodes), [AbsoluteImport(a, b) for a, b in edges], limit))
 
 
+def hash_free_choice(a: str, b: str) -> int:
+    """A choice that depends on the two names only (no PRNG state, no hash seed)."""
+    return sum(map(ord, a)) + 3 * sum(map(ord, b))
+
+
 def make_arch_scan(nodes, edges, limit=None, keep=None):
     """Materialise a real file tree (leaves = .py files, inner nodes = directories
     without __init__.py), scan it with the public entry point.  Only leaves may import."""
@@ -62,7 +69,8 @@ def make_arch_scan(nodes, edges, limit=None, keep=None):
                 continue
             p = d.joinpath(*n.split("."))
             p.parent.mkdir(parents=True, exist_ok=True)
-            src = "".join(f"import {b}\n" for a, b in edges if a == n)
+            # both spellings of an absolute import; 'from pkg import leaf' only when it names the same module
+            src = "".join((f"from {b.rsplit('.', 1)[0]} import {b.rsplit('.', 1)[1]}\n" if ("." in b and (hash_free_choice(n, b) % 4)) else f"import {b}\n") for a, b in edges if a == n)
             p.with_suffix(".py").write_text(src)
         rp = str(d / root)
         kw = {} if limit is None else {"level_limit": limit}
@@ -613,7 +621,8 @@ def gen_alias_nested_cases(rng, n):
     subjects with short / long names sorting before and after them (3-6 subjects)."""
     cases = []
     while len(cases) < n:
-        pool = rng.choice((COLLISION_FREE, ADVERSARIAL, LARGE_POOL, ["core", "api_controllers_and_views", "db", "ext", "x", "core_utils"]))
+        pool = rng.choice((COLLISION_FREE, ADVERSARIAL, LARGE_POOL, UNICODE_POOL + ["\u044f", "\u30c7\u30fc\u30bf", "\u0100a"],
+                           ["core", "api_controllers_and_views", "db", "ext", "x", "core_utils"]))
         nodes = rand_tree(rng, pool, max_nodes=rng.choice([10, 16, 24]), max_depth=5)
         nested = [(a, b) for a in nodes for b in nodes if a != "r" and b.startswith(a + ".")]
         if not nested:
@@ -639,7 +648,7 @@ def gen_random_cases(rng, n, strict, mode="direct", pools=(COLLISION_FREE, ADVER
         mode = "direct"
     while len(cases) < n:
         pool = LARGE_POOL if large else rng.choice(pools)
-        nodes = rand_tree(rng, pool, max_nodes=rng.choice([25, 35, 45]), max_depth=rng.choice([5, 7])) if large else \
+        nodes = rand_tree(rng, pool, max_nodes=rng.choice([25, 35, 45]), max_depth=rng.choice([5, 7, 10])) if large else \
             rand_tree(rng, pool, max_nodes=rng.choice([5, 8, 12]))
         if mode == "scan":
             inner = {x for x in nodes if any(m.startswith(x + ".") for m in nodes)}
